@@ -1,7 +1,7 @@
 """C09 - Every run ends in a solution or an honest, located failure (DESIGN.md section 4).  Thin wrapper over solver_property.py."""
 from __future__ import annotations
 
-from typing import Any, Dict, Optional
+from typing import Any, Dict, List, Optional
 
 import sys
 
@@ -13,7 +13,8 @@ ID = "C09"
 PROPS = ["props/C09.v"]
 EXTRACTS = ["Solver"]
 THEOREMS = ['C09_no_candidate_is_honest_partial', 'C09_reported_chains_are_real', 'C09_refuted_internal_errors_escape', 'C09_refuted_unbounded_recursion', 'C09_refuted_is_possible_unsound', 'C09_unusable_solution_line_is_diagnosed',
-            'C09_unusable_repository_argument_is_diagnosed_partial', 'C09_reported_failures_exit_1', 'C09_refuted_internal_error_reaches_the_user']
+            'C09_unusable_repository_argument_is_diagnosed_partial', 'C09_reported_failures_exit_1', 'C09_refuted_internal_error_reaches_the_user',
+            'C09_unusable_source_findlinks_arguments_are_diagnosed']
 MODES = ['conflict', 'conflict', 'dense', 'dense', 'extras', 'calm', 'cascade']
 RULE = ("universes (2-6 projects x 1-4 versions incl. pre/post/dev releases, requirements with the 7 operators, "
         "wildcards, extras, extra- and environment-markers, cycles, unreadable files, misnamed files), 1-3 input files, "
@@ -174,6 +175,14 @@ _sp_replay_known = replay_known
 
 
 def replay_known(ctx: Ctx, entry):  # noqa: F811
+    if entry.get("kind") == "repo-arg":
+        tmp = ctx.tmpdir()
+        afile = tmp / "known-a-file.txt"
+        afile.write_text("x\n")
+        inp = tmp / "known-in.txt"
+        inp.write_text("b\n")
+        rs = [run_cmdline_argv(["--find-links", str(afile), "--no-index", str(inp)]), run_cmdline_argv(["--solution", str(tmp), "--no-index", str(inp)])]
+        return any(r["outcome"] == "traceback" for r in rs)
     if entry.get("kind") == "is_possible":
         import req_compile.utils as U
         import req_compile.versions as V
@@ -280,6 +289,28 @@ def run_cmdline_solution(text: str, tmp) -> Dict[str, Any]:
     return res
 
 
+def run_cmdline_argv(argv: List[str]) -> Dict[str, Any]:
+    import contextlib
+    import io
+    import req_compile.cmdline as CL
+    out, err = io.StringIO(), io.StringIO()
+    wrf = CL.write_requirements_file
+    saved_defaults = wrf.__defaults__
+    wrf.__defaults__ = tuple(out if d is sys.__stdout__ or d is sys.stdout else d for d in saved_defaults)
+    try:
+        with contextlib.redirect_stdout(out), contextlib.redirect_stderr(err):
+            CL.compile_main(list(argv))
+        res: Dict[str, Any] = {"outcome": "exit", "code": 0}
+    except SystemExit as ex:
+        res = {"outcome": "exit", "code": ex.code if isinstance(ex.code, int) else (0 if ex.code is None else 1)}
+    except BaseException as ex:  # noqa: BLE001
+        res = {"outcome": "traceback", "class": type(ex).__name__, "msg": str(ex)[:120]}
+    finally:
+        wrf.__defaults__ = saved_defaults
+    res["stderr_tail"] = err.getvalue().strip().split("\n")[-1][:160]
+    return res
+
+
 def boundary(ctx: Ctx) -> None:
     import logging
     tmp = ctx.tmpdir()
@@ -300,6 +331,21 @@ def boundary(ctx: Ctx) -> None:
             new.append({"solution_text": text, "observed": r})
         elif r["outcome"] == "exit" and r["inner"] and r.get("code") != 1 and not new:
             new.append({"solution_text": text, "observed": r})
+    # other unusable repository arguments
+    missing = str(tmp / "no-such-dir")
+    afile = tmp / "a-file.txt"
+    afile.write_text("x\n")
+    variants = [["--source", missing], ["--source", "no/such/relative/dir"], ["--find-links", missing], ["--solution", missing + ".txt"],
+                ["--no-index"], ["--source", str(afile)], ["--find-links", str(afile)], ["--solution", str(tmp)],
+                ["--source", missing, "--find-links", missing], ["--index-url", "not a url", "--no-index"]]
+    inp = tmp / "boundary-in.txt"
+    inp.write_text("b\n")
+    for argv in variants:
+        r = run_cmdline_argv(argv + (["--no-index"] if "--no-index" not in argv else []) + [str(inp)])
+        ctx.count("repo-arg-outcome:" + (r["outcome"] + (str(r.get("code")) if r["outcome"] == "exit" else ":" + r["class"])))
+        ctx.case(key=("repo-arg", tuple(argv)), nontrivial=(r["outcome"] == "exit" and r.get("code") == 1))
+        if r["outcome"] == "traceback" and not new:
+            new.append({"argv": argv + ["--no-index", "<file containing 'b'>"], "observed": r})
     logging.getLogger().setLevel(root_level)
     # the model's verdict for every exception class seen inside _add_sources (and for all the others) is Exits 1
     ctors = sorted(set(seen_inner) | {c for _, c in EXC_MAP if c != "EBaseOnly"})
@@ -311,7 +357,7 @@ def boundary(ctx: Ctx) -> None:
     if not ok or got != want:
         ctx.mismatch("boundary-model", ctors, want, out[-400:])
     if new:
-        ctx.mismatch("solution-argument-boundary", {"solution_text": new[0]["solution_text"]}, new[0]["observed"], "exit 1 with a diagnostic")
+        ctx.mismatch("solution-argument-boundary", {k: v for k, v in new[0].items() if k != "observed"}, new[0]["observed"], "exit 1 with a diagnostic")
     ctx._boundary_new = new  # type: ignore[attr-defined]
 
 
@@ -331,6 +377,9 @@ def search(ctx: Ctx):  # noqa: F811
     if new:
         o = new[0]["observed"]
         what = (f"a traceback ({o.get('class')}: {o.get('msg')})" if o["outcome"] == "traceback" else f"exit status {o.get('code')}")
+        if "argv" in new[0]:
+            return {"input": {"kind": "repository-argument", "argv": new[0]["argv"]},
+                    "why": f"req-compile {' '.join(new[0]['argv'][:-2])} ends in {what} instead of a diagnostic and exit status 1"}
         return {"input": {"kind": "solution-argument", "solution_text": new[0]["solution_text"], "argv": ["--solution", "<file>", "--no-index", "<file containing 'b'>"]},
                 "why": f"req-compile --solution <file> ends in {what} instead of a diagnostic and exit status 1"}
     return _p_search(ctx)
